@@ -83,8 +83,9 @@ func checkLikeTranslator(c *core.Ctx, t *fnTable, ids map[string]int64) {
 		}
 	}
 	if tr == nil {
-		c.Unknown("LIKE", key, d.Function.Pos(), "no local closure returning (*regexp.Regexp, error) found")
-		return
+		// the translation may live in the factory around the function or in package-level helpers: the whole function
+		// is interpreted below with its helpers followed, so this literal only serves as the position of the report
+		tr = d.Function
 	}
 	// constants likeEscape/likeAny/likeAll are read from the code (they are typed constants)
 	classes := []string{}
@@ -173,7 +174,7 @@ func checkLikeTranslator(c *core.Ctx, t *fnTable, ids map[string]int64) {
 	bad := ""
 	coveredNormal, coveredEsc := map[string]bool{}, map[string]bool{}
 	for _, o := range outs {
-		if os.Getenv("OCTOVERIF_DEBUG") != "" && len(o.Trace) > 1 {
+		if os.Getenv("OCTOVERIF_DEBUG") != "" {
 			fmt.Fprintln(os.Stderr, "TRACE", o.Kind, o.Trace, o.Ref)
 		}
 		// segment the writes by iteration
